@@ -6,7 +6,8 @@
    btree_inv_reachable); [elements r] = in-order listing; an iterator is [IEnd] or [IAt path]; [valid r p] says
    the path is a well-formed iterator into r; [pos r p] is the index in the listing of the element it designates. *)
 From Coq Require Import ZArith List Bool Arith.
-From Zix Require Import BTreeSpec BTreeModel BTreeProofsBase BTreeProofsIter BTreeProofsFind BTreeProofsRemove.
+From Zix Require Import BTreeSpec BTreeModel BTreeProofsBase BTreeProofsIter BTreeProofsFind BTreeProofsRemove
+  BTreeProofsHist.
 Import ListNotations.
 
 (* lower_bound with a search comparator ck (ck x = compare_key(x, key)) whose answers are monotone along the
@@ -114,3 +115,22 @@ Print Assumptions iter_equals_iff_same_position.
    size 64 on which lower_bound of an absent key past the end of the first leaf climbs to the separator *)
 Example configs_ok : (3 = 6 / 2 /\ 3 <= 3) /\ (7 = 14 / 2 /\ 3 <= 7) /\ (15 = 30 / 2 /\ 3 <= 15) /\ (255 = 510 / 2 /\ 3 <= 255).
 Proof. repeat split; try reflexivity; repeat constructor. Qed.
+
+(* page size 64, keys 10,20,..,400 inserted in ascending order (height 4): absent keys that fall past the end of a
+   non-last leaf climb to the separator (35 -> 40 two levels up, 155 -> 160 in the root); a wildcard key matching
+   160..319 finds its first match 160; removing 80 (resident in an internal page, replaced by its predecessor)
+   leaves next at 90 *)
+Example positional_example :
+  let t := run (fun x : Z => x) 0%Z 6 3 (map (fun k => OInsert [] (Z.of_nat (10 * k))) (seq 1 40)) in
+  Inv (fun x : Z => x) 6 3 t /\ height (root t) = 4 /\
+  fst (lower_bound 0%Z t (fun x => Z.compare x 35%Z)) = IAt [0; 0; 0] /\
+  iter_get 0%Z (root t) (IAt [0; 0; 0]) = 40%Z /\
+  fst (lower_bound 0%Z t (fun x => Z.compare x 155%Z)) = IAt [0] /\
+  fst (lower_bound 0%Z t (fun x => Z.compare (x / 160) 1)%Z) = IAt [0] /\
+  iter_get 0%Z (root t) (IAt [0]) = 160%Z /\
+  (let '(st, out, t', it, lg) := remove (fun x : Z => x) 0%Z 6 3 t 80%Z in
+   st = SUCCESS /\ out = Some 80%Z /\ it = IAt [0; 0; 2; 0] /\ iter_get 0%Z (root t') it = 90%Z).
+Proof.
+  split; [apply (inv_reachable Z (fun x : Z => x) 0%Z 6 3 eq_refl (le_n 3))|].
+  vm_compute. repeat split.
+Qed.
